@@ -59,6 +59,7 @@ struct Heap {
         fresh_clear(held);
         ranks.clear();
         next_id = 0;
+        memset(&h, 0xA5, sizeof h);      // init must set every field itself (storage that is not zero-filled)
         cstl_heap_init(&h, cmp_cb, &g_priv_token, offsetof(Elem, hn));
     }
     Elem *mk(int prio)
